@@ -69,6 +69,8 @@ pub fn gen_scenario(rng: &mut Rng) -> Scenario {
                 &[0x30, 0x10, 0x02, 0x05, 0x01, 0, 0, 0, 0x01, 0x6b, 0x07, 0x0a, 0x01, 0x00, 0x04, 0x00, 0x04, 0x00],
                 &[0x30, 0x10, 0x02, 0x05, 0x00, 0x80, 0, 0, 0, 0x6b, 0x07, 0x0a, 0x01, 0x00, 0x04, 0x00, 0x04, 0x00],
                 &[0x30, 0x0c, 0x02, 0x01, 0xff, 0x6b, 0x07, 0x0a, 0x01, 0x00, 0x04, 0x00, 0x04, 0x00],
+                // the indefinite length form, which LDAP forbids (and which is not "128 octets to come" either)
+                &[0x30, 0x80, 0x02, 0x01, 0x01, 0x6b, 0x07, 0x0a, 0x01, 0x00, 0x04, 0x00, 0x04, 0x00, 0x00, 0x00],
                 // a response whose Controls list holds something that is not a Control (a bare OCTET STRING), and one whose
                 // Controls element is not a list at all
                 &[0x30, 0x15, 0x02, 0x01, 0x01, 0x6b, 0x07, 0x0a, 0x01, 0x00, 0x04, 0x00, 0x04, 0x00, 0xa0, 0x07, 0x04, 0x05, 0x31, 0x2e, 0x32, 0x2e, 0x33],
